@@ -68,7 +68,8 @@ namespace adept {
       }
 
       bool is_aliased_(const Type* mem1, const Type* mem2) const {
-	return false;
+	// "array" is a shallow copy if the argument was an Array
+	return array.is_aliased(mem1, mem2);
       }
 
       bool all_arrays_contiguous_() const {
